@@ -877,6 +877,8 @@ def copy_from_slice(m, cfg, f, args, t):
         check_prim(m, cfg, t, m.compare(st, 'Eq', dl, sl), 'copy_from_slice lengths equal')
     else:
         check_prim(m, cfg, t, Atom('?'), 'copy_from_slice lengths equal')
+    st.extra['copies'] = st.extra.get('copies', ()) + ((repr(dst.data if isinstance(dst, Slice) and dst.base is None else dst), repr(dl),
+                                                         repr(src.data if isinstance(src, Slice) and src.base is None else src), repr(sl)),)
     if isinstance(dst, Slice) and dst.base is not None:
         if isinstance(src, Slice) and src.base is not None:
             val = m.read_path(st, src.base.key, src.base.path)
@@ -902,6 +904,28 @@ def split_at(m, cfg, f, args, t):
     rest = lin_add(s.len, mid, -1) if isinstance(s.len, Int) and isinstance(mid, Int) else Atom(fresh('len'))
     nm = s.data if s.base is None else repr(s.base)
     return Tup([Slice(None, 'head(%s)' % nm, mid), Slice(None, 'tail(%s)' % nm, rest)])
+
+
+@prim('core::slice::<impl [T]>::split_at_mut_checked', 'core::slice::<impl [T]>::split_at_checked')
+def split_at_checked(m, cfg, f, args, t):
+    """slice::split_at_checked(mid): None when mid > len, otherwise Some((head of mid elements, rest))"""
+    st = cfg.st
+    s, mid = args[0], args[1]
+    if not isinstance(s, Slice):
+        return NotImplemented
+    c = m.compare(st, 'Le', mid, s.len)
+    rest = lin_add(s.len, mid, -1) if isinstance(s.len, Int) and isinstance(mid, Int) else Atom(fresh('len'))
+    nm = s.data if s.base is None else repr(s.base)
+    pair = Tup([Slice(None, 'head(%s)' % nm, mid), Slice(None, 'tail(%s)' % nm, rest)])
+    if isinstance(c, Int) and c.is_const():
+        return some(pair) if c.c else NONE
+    if isinstance(c, Cond):
+        return narrow_set(m, cfg, Int.sym(c.sym), c.tset, lambda _: some(pair), lambda: NONE)
+    if isinstance(c, Atom):
+        def known(v):
+            return lambda st_: st_.extra.__setitem__('known', dict(st_.extra.get('known') or {}, **{c.name: v}))
+        return Fork([(known(1), some(pair)), (known(0), NONE)])
+    return NotImplemented
 
 
 @prim('std::mem::take')
